@@ -294,20 +294,25 @@ class Parser:
         )
         self.pos = 0
         parsed_nodes = []
+        literal = "".join(txt for token_type, txt in self.tokens if txt and token_type != Symbols.noi)
 
-        while 1:
-            current_token_type, txt = self.get_token()
-            if current_token_type == Symbols.bra_open:
-                parsed_nodes.append(self.parse_open_brace())
-            elif current_token_type is None:
-                break
-            elif current_token_type == Symbols.noi:
-                self.pos += 1  # ignore <noinclude>
-            else:  # bra_close, link, txt
-                parsed_nodes.append(txt)
-                self.pos += 1
+        try:
+            while 1:
+                current_token_type, txt = self.get_token()
+                if current_token_type == Symbols.bra_open:
+                    parsed_nodes.append(self.parse_open_brace())
+                elif current_token_type is None:
+                    break
+                elif current_token_type == Symbols.noi:
+                    self.pos += 1  # ignore <noinclude>
+                else:  # bra_close, link, txt
+                    parsed_nodes.append(txt)
+                    self.pos += 1
 
-        parsed_nodes = optimize(parsed_nodes)
+            parsed_nodes = optimize(parsed_nodes)
+        except RecursionError:
+            # braces nested deeper than the interpreter's stack: the page stays text
+            parsed_nodes = [literal]
 
         if self.use_cache:
             self._cache[fingerprint] = parsed_nodes
